@@ -233,12 +233,18 @@ func VerifC13CharLit() {
 		{'\'', '\\', 'U', '0', '0', '0', '0', '0', '0', hex(ch >> 4), hex(ch & 15), '\''},
 	}
 	charLit := token.FRONTENDTokens.Type("char_lit")
+	first := ""
 	for i := 0; i < len(lits); i++ {
 		var s Scanner
 		s.Init(lits[i], token.FRONTENDTokens)
 		t, _ := s.Scan()
 		verifAssert(t.Type == charLit && len(t.Lit) == len(lits[i]) && s.ErrorCount == 0, "every spelling is one char_lit token without error")
 		verifAssert(util.LitToRune(t.Lit) == rune(ch), "every spelling denotes the same code point")
+		cl, _ := ast.NewLexCharLit(t)
+		if i == 0 {
+			first = cl.String()
+		}
+		verifAssert(cl.Val == rune(ch) && cl.String() == first, "every spelling yields the same character-literal node: value and printed form (the form items, classes and generated comments are keyed by)")
 	}
 	verifCover("end")
 }
@@ -278,12 +284,25 @@ func VerifC13CharLitWide() {
 		}
 	}
 	charLit := token.FRONTENDTokens.Type("char_lit")
+	first := ""
 	for i := 0; i < len(lits); i++ {
 		var s Scanner
 		s.Init(lits[i], token.FRONTENDTokens)
 		t, _ := s.Scan()
 		verifAssert(t.Type == charLit && len(t.Lit) == len(lits[i]) && s.ErrorCount == 0, "every spelling is one char_lit token without error")
 		verifAssert(util.LitToRune(t.Lit) == cp, "every spelling denotes the same code point")
+		cl, _ := ast.NewLexCharLit(t)
+		if i == 0 {
+			first = cl.String()
+		}
+		verifAssert(cl.Val == cp && cl.String() == first, "every spelling yields the same character-literal node: value and printed form (the form items, classes and generated comments are keyed by)")
 	}
 	verifCover("end")
+}
+
+// verifRuneKey stands in for util.RuneToString inside the engine (whose fmt model has no text for
+// a symbolic rune): some function of the code point and of nothing else. Natively the real
+// RuneToString runs.
+func verifRuneKey(r rune) string {
+	return string([]byte{byte(r), byte(r >> 8), byte(r >> 16)})
 }
